@@ -240,6 +240,15 @@ class Sym:
                 return ("const", v, op[1])
             if isinstance(op[2], list) and op[2] and op[2][0] == "static":
                 return ("static", op[2][1])
+            if isinstance(op[2], list) and op[2] and op[2][0] == "promoted":
+                owner = self.fn.prog.fns.get(op[2][1])
+                pf = owner.promoted(op[2][2]) if owner is not None else None
+                if pf is not None:
+                    ps = Sym(pf)
+                    ds = pf.defs().get(0, [])
+                    if len(ds) == 1:
+                        return ps.rvalue(ds[0][2], ds[0][0], (ds[0][0], ds[0][1]))
+                return ("constx", "promoted", op[1])
             if len(op) > 3 and isinstance(op[3], str):
                 return ("static", op[3])      # named const item (e.g. a const array)
             return ("constx", str(op[2]), op[1])
